@@ -739,6 +739,7 @@ impl<'a> Sup<'a> {
                 p.ino = self.fd_ino(i_);
                 p.ino2 = self.fd_ino(o_);
             }
+            libc::SYS_umask => name = "umask", // process-global state shared by all threads
             libc::SYS_futex => name = "futex",
             libc::SYS_clone => name = "clone",
             libc::SYS_clone3 => name = "clone3",
